@@ -311,6 +311,24 @@ pub fn run(ctx: &Ctx, st: &mut Stats) {
             st.eval(&C::ab(K::Cmp, a, d as i64 * DAY_US), check);
         }
     }
+    // pool dates x bit-structured times: comparisons against the same / neighbouring day and second; OracleDate vs Timestamp ops
+    let bts = bit_times();
+    let (bts_ref, dpool_ref) = (&bts, &dpool);
+    let bstep = ctx.tier.pick(997, 3, 1);
+    ctx.par(st, "pool dates x bit-structured times: comparisons and shared ops", true, 0, (dpool.len() * bts.len()) as i64 / bstep, |st, i, _| {
+        let i = (i * bstep) as usize;
+        let day = dpool_ref[i / bts_ref.len()] as i64;
+        let t = bts_ref[i % bts_ref.len()];
+        let a = day * DAY_US + t;
+        for b in [day * DAY_US, (day + 1) * DAY_US, a - a.rem_euclid(1_000_000), a - a.rem_euclid(1_000_000) + 1_000_000] {
+            if (TS_MIN..=TS_MAX).contains(&b) {
+                st.eval(&C::ab(K::Cmp, a, b), check);
+            }
+        }
+        if t % 1_000_000 == 0 && a <= ORA_MAX {
+            st.eval(&C::ab(K::OraVsTs, a, 0), check);
+        }
+    });
     let n = ctx.tier.pick(1_000, 2_000_000, ctx.big(30_000_000, 300_000_000));
     ctx.par(st, "random: pairs for comparisons / differences / interval arithmetic", false, 0, n, |st, _, rng| {
         let a = rng.range_i64(TS_MIN, TS_MAX);
